@@ -196,12 +196,14 @@ def doExpiration (j : Jar) (now : Int) : Jar :=
 
 /-! ## `update_cookies` -/
 
+/-- dict assignment `_cookies[key][name] = cookie`: replace in place, else append -/
+def putEntry (e : Entry) : List Entry → List Entry
+  | [] => [e]
+  | x :: t => if x.key == e.key then e :: t else x :: putEntry e t
+
 /-- `self._cookies[key][name] = cookie; self._morsel_cache[key].pop(name, None)` -/
 def storeEntry (j : Jar) (e : Entry) : Jar :=
-  let rec put : List Entry → List Entry
-    | [] => [e]
-    | x :: t => if x.key == e.key then e :: t else x :: put t
-  { j with cookies := put j.cookies, cache := adel e.key j.cache }
+  { j with cookies := putEntry e j.cookies, cache := adel e.key j.cache }
 
 /-- domain normalisation of the loop body: returns (jar with host-only mark, domain) -/
 def normDomain (j : Jar) (host : Option Str) (name : Str) (dattr : Str) : Jar × Str :=
